@@ -64,6 +64,7 @@ func init() {
 	reg("c13", "Devices", func(a []int64) { c13.Devices() })
 	reg("c13", "Route24", func(a []int64) { c13.Route24(int(a[0])) })
 	reg("c13", "Misaligned", func(a []int64) { c13.Misaligned(int(a[0]), int(a[1]), int(a[2])) })
+	reg("c13", "AfterDump", func(a []int64) { c13.AfterDump(int(a[0]), int(a[1]), int(a[2])) })
 	reg("c13", "Dump", func(a []int64) { c13.Dump(int(a[0]), int(a[1]), int(a[2])) })
 	reg("c14", "Line", func(a []int64) { c14.Line(int(a[0]), int(a[1]), int(a[2]), int(a[3])) })
 	reg("c14", "LoggerOnOff", func(a []int64) { c14.LoggerOnOff(int(a[0]), int(a[1]), int(a[2])) })
